@@ -419,6 +419,18 @@ func moveOutFile(w *bytes.Buffer, param *syntax.StructMember,
 	// If file doesn't exist (e.g. stage just didn't create it)
 	// then report null
 	if info, err := os.Lstat(filePath); os.IsNotExist(err) {
+		// Unless an earlier pass was interrupted after it had moved the
+		// file to outs/ and before it had put the link in its place.
+		outPath := path.Join(outsPath, param.GetOutFilename())
+		if _, err := os.Lstat(outPath); err == nil {
+			if relPath, err := filepath.Rel(filepath.Dir(filePath), outPath); err == nil {
+				_ = os.Symlink(relPath, filePath)
+			}
+			if b, err := json.Marshal(outPath); err == nil {
+				_, err := w.Write(b)
+				return err
+			}
+		}
 		_, err := w.Write(nullBytes)
 		return err
 	} else if err != nil {
